@@ -264,6 +264,18 @@ Definition Overlap (s : gstate) : Prop :=
   forall V1 V2, In V1 (quorums s) -> In V2 (quorums s) ->
   forall f g, majority V1 f = true -> majority V2 g = true -> exists x, f x = true /\ g x = true.
 
+(* Two per-step conditions that replace the Overlap hypothesis when they are checked on a run
+   (the acceptor checks them on every step it accepts):
+   NoClash: a candidate only becomes leader of a term that has no elected leader yet;
+   CommitOK: a leader only commits a prefix that is comparable with the committed log. *)
+Definition NoClash (s s' : gstate) : Prop :=
+  forall c, rl (nodes s c) = Candidate -> rl (nodes s' c) = Leader -> ~ has_leader s (cur (nodes s c)).
+
+Definition CommitOK (s s' : gstate) : Prop :=
+  forall c, rl (nodes s c) = Leader -> rl (nodes s' c) = Leader -> commit (nodes s c) < commit (nodes s' c) ->
+    let P := firstn (commit (nodes s' c)) (log (nodes s c)) in
+    prefix (gcommit s) P \/ prefix P (gcommit s).
+
 (* ---------- monotonicity of the history along a step ---------- *)
 
 Definition hist_le (s s' : gstate) : Prop :=
